@@ -77,3 +77,237 @@ package stringlib
 //@   modifies everything()
 //@   exits any
 //@   allocs charged slack 0
+
+// ---------------------------------------------------------------------------
+// C17: the format tables of string.pack and string.unpack agree (manual §6.4.2):
+// for every fixed-size option both sides align to the option's size and
+// transfer exactly that many bytes; for i[n], I[n] and s[n] both sides align to
+// n.  Each case body of the two option switches is extracted byte for byte
+// (fragment) and its calls are checked.
+// ---------------------------------------------------------------------------
+//@ fragment pack_h of PackValues at switch c/case 'h'
+//@   prop C17
+//@   arith bv
+//@   norte
+//@   nocover
+//@   modifies everything()
+//@   exits any
+//@   assert_before_call align: $n == 2
+//@   assert_before_call write: $amount == 2
+
+//@ fragment unpack_h of UnpackString at switch c/case 'h'
+//@   prop C17
+//@   arith bv
+//@   norte
+//@   nocover
+//@   modifies everything()
+//@   exits any
+//@   assert_before_call align: $n == 2
+//@   assert_before_call read: $sz == 2
+//@ fragment pack_uh of PackValues at switch c/case 'H'
+//@   prop C17
+//@   arith bv
+//@   norte
+//@   nocover
+//@   modifies everything()
+//@   exits any
+//@   assert_before_call align: $n == 2
+//@   assert_before_call write: $amount == 2
+
+//@ fragment unpack_uh of UnpackString at switch c/case 'H'
+//@   prop C17
+//@   arith bv
+//@   norte
+//@   nocover
+//@   modifies everything()
+//@   exits any
+//@   assert_before_call align: $n == 2
+//@   assert_before_call read: $sz == 2
+//@ fragment pack_l of PackValues at switch c/case 'l'
+//@   prop C17
+//@   arith bv
+//@   norte
+//@   nocover
+//@   modifies everything()
+//@   exits any
+//@   assert_before_call align: $n == 8
+//@   assert_before_call write: $amount == 8
+
+//@ fragment unpack_l of UnpackString at switch c/case 'l'
+//@   prop C17
+//@   arith bv
+//@   norte
+//@   nocover
+//@   modifies everything()
+//@   exits any
+//@   assert_before_call align: $n == 8
+//@   assert_before_call read: $sz == 8
+//@ fragment pack_ul of PackValues at switch c/case 'L'
+//@   prop C17
+//@   arith bv
+//@   norte
+//@   nocover
+//@   modifies everything()
+//@   exits any
+//@   assert_before_call align: $n == 8
+//@   assert_before_call write: $amount == 8
+
+//@ fragment unpack_ul of UnpackString at switch c/case 'L'
+//@   prop C17
+//@   arith bv
+//@   norte
+//@   nocover
+//@   modifies everything()
+//@   exits any
+//@   assert_before_call align: $n == 8
+//@   assert_before_call read: $sz == 8
+//@ fragment pack_f of PackValues at switch c/case 'f'
+//@   prop C17
+//@   arith bv
+//@   norte
+//@   nocover
+//@   modifies everything()
+//@   exits any
+//@   assert_before_call align: $n == 4
+//@   assert_before_call write: $amount == 4
+
+//@ fragment unpack_f of UnpackString at switch c/case 'f'
+//@   prop C17
+//@   arith bv
+//@   norte
+//@   nocover
+//@   modifies everything()
+//@   exits any
+//@   assert_before_call align: $n == 4
+//@   assert_before_call read: $sz == 4
+//@ fragment pack_d of PackValues at switch c/case 'd'
+//@   prop C17
+//@   arith bv
+//@   norte
+//@   nocover
+//@   modifies everything()
+//@   exits any
+//@   assert_before_call align: $n == 8
+//@   assert_before_call write: $amount == 8
+
+//@ fragment unpack_d of UnpackString at switch c/case 'd'
+//@   prop C17
+//@   arith bv
+//@   norte
+//@   nocover
+//@   modifies everything()
+//@   exits any
+//@   assert_before_call align: $n == 8
+//@   assert_before_call read: $sz == 8
+//@ fragment pack_b of PackValues at switch c/case 'b'
+//@   prop C17
+//@   arith bv
+//@   norte
+//@   nocover
+//@   modifies everything()
+//@   exits any
+//@   assert_before_call align: $n == 0
+//@   assert_before_call write: $amount == 1
+
+//@ fragment unpack_b of UnpackString at switch c/case 'b'
+//@   prop C17
+//@   arith bv
+//@   norte
+//@   nocover
+//@   modifies everything()
+//@   exits any
+//@   assert_before_call align: $n == 0
+//@   assert_before_call read: $sz == 1
+//@ fragment pack_ub of PackValues at switch c/case 'B'
+//@   prop C17
+//@   arith bv
+//@   norte
+//@   nocover
+//@   modifies everything()
+//@   exits any
+//@   assert_before_call align: $n == 0
+//@   assert_before_call write: $amount == 1
+
+//@ fragment unpack_ub of UnpackString at switch c/case 'B'
+//@   prop C17
+//@   arith bv
+//@   norte
+//@   nocover
+//@   modifies everything()
+//@   exits any
+//@   assert_before_call align: $n == 0
+//@   assert_before_call read: $sz == 1
+//@ fragment pack_in of PackValues at switch c/case 'i'
+//@   prop C17
+//@   arith bv
+//@   norte
+//@   nocover
+//@   modifies everything()
+//@   exits any
+//@   assert_before_call align: $n == p.optSize
+
+//@ fragment unpack_in of UnpackString at switch c/case 'i'
+//@   prop C17
+//@   arith bv
+//@   norte
+//@   nocover
+//@   modifies everything()
+//@   exits any
+//@   assert_before_call align: $n == u.optSize
+//@ fragment pack_uin of PackValues at switch c/case 'I'
+//@   prop C17
+//@   arith bv
+//@   norte
+//@   nocover
+//@   modifies everything()
+//@   exits any
+//@   assert_before_call align: $n == p.optSize
+
+//@ fragment unpack_uin of UnpackString at switch c/case 'I'
+//@   prop C17
+//@   arith bv
+//@   norte
+//@   nocover
+//@   modifies everything()
+//@   exits any
+//@   assert_before_call align: $n == u.optSize
+//@ fragment pack_sn of PackValues at switch c/case 's'
+//@   prop C17
+//@   arith bv
+//@   norte
+//@   nocover
+//@   modifies everything()
+//@   exits any
+//@   assert_before_call align: $n == p.optSize
+
+//@ fragment unpack_sn of UnpackString at switch c/case 's'
+//@   prop C17
+//@   arith bv
+//@   norte
+//@   nocover
+//@   modifies everything()
+//@   exits any
+//@   assert_before_call align: $n == u.optSize
+
+// Wide integers (i[n]/I[n] with n > 8): the padding bytes written around the
+// 8-byte value are the sign extension (0xff for a negative signed value, else
+// 0) - on either byte order.
+//@ func (*packer).packInt
+//@   prop C17
+//@   arith bv
+//@   norte
+//@   nocover
+//@   modifies everything()
+//@   exits any
+//@   assert_before_call fill: $c == ite(old(p.intVal) < 0, 255, 0) && $n == old(p.optSize) - 8
+//@   assert_before_call checkBounds: old(p.optSize) == 4 ==> $min == -2147483648 && $max == 2147483647
+//@   assert_before_call checkBounds: old(p.optSize) != 4 ==> old(p.optSize) < 8 && $max == (int64(1) << (old(p.optSize)*8 - 1)) - 1 && $min == -(int64(1) << (old(p.optSize)*8 - 1))
+
+//@ func (*packer).packUint
+//@   prop C17
+//@   arith bv
+//@   norte
+//@   nocover
+//@   modifies everything()
+//@   exits any
+//@   assert_before_call fill: $c == 0 && $n == old(p.optSize) - 8
